@@ -441,6 +441,14 @@ def flush_model(ctx):
                     continue
                 c2.append(c); a2.append(a); b2.append(norm_model(b))
             ctx.compare_stream(stream, c2, a2, b2)
+        elif kind == "world":
+            m = mine[0]
+            model = {"frames": m["frames"], "left": m["left"],
+                     "caches": [sorted(c, key=lambda e: (-1 if e[0] is None else e[0], e[1])) for c in m["caches"]],
+                     "pending": m["pending"]}
+            kd = cases[0]["send"][1][0]
+            ctx.compare_stream(stream, cases, impl, [model],
+                               sig=lambda c, mm: (kd, c.get("cache_mode"), bool(c.get("history")), min(len(mm["frames"]), 12)))
         else:
             tag, kindd = cases[0]["tag"], cases[0]["dest"][0]
             model = sorted(core.canon({"lan": d["lan"], "mac": d["mac"], "src": d["src"], "dst": d["dst"],
@@ -1214,6 +1222,30 @@ def dest_choices(spec, sidx):
     return out
 
 
+def world_compare(ctx, world, spec, sidx, dest, topo, case):
+    """Route.runWorld vs the implementation: the exact global sequence of frames (every LAN, in the
+    order the task manager delivered them), the deliveries, and every node's cache and parked
+    packets afterwards"""
+    if any(t.get("pend") for t in topo):
+        return
+    frames = []
+    for lan, fsrc, fdst, raw in world.frames:
+        try:
+            frames.append({"lan": lan, "src": fsrc, "dst": fdst, "npci": dec_npdu(bytes.fromhex(raw))})
+        except Malformed:
+            frames.append({"lan": lan, "undecodable": raw})
+    dels = []
+    for idx, node in enumerate(world.nodes):
+        pass
+    impl = {"frames": frames, "left": 0,
+            "caches": [n.digest()["cache"] for n in world.nodes],
+            "pending": [len(n.digest()["pending"]) for n in world.nodes]}
+    req = {"op": "run_world", "topo": topo, "from": sidx, "dest": dest, "er": False, "prio": 0, "data": PAYLOAD,
+           "fuel": 20000}
+    case = dict(case, world=True)
+    ctx.__dict__.setdefault("_c06_queue", []).append(("world", "e2e-world", [req], [case], [impl]))
+
+
 def global_compare(ctx, world, spec, sidx, dest, got, topo, tag):
     """deliverAll (static caches) vs the implementation, as multisets"""
     if not ctx.model_ok:
@@ -1266,6 +1298,9 @@ def run_tree_scenario(ctx, vt, sc, node_lockstep=True):
             continue
         topo = world.topo_request() if sc["cache_mode"] != "cold" or dest[0] in ("gb", "lb", "ls") else None
         burst = bool(sc.get("burst")) and k % 2 == 1
+        # the STATEFUL simulator (Route.runWorld) against the whole internetwork: any single packet,
+        # whatever the state of the caches (cold, half warm in a history, configured)
+        wtopo = world.topo_request() if (not burst and ctx.model_ok) else None
         case["burst"] = burst
         got = send_and_check(ctx, world, spec, case, sidx, dest, dist,
                              payloads=(PAYLOAD, PAYLOAD2, PAYLOAD3) if burst else (PAYLOAD,))
@@ -1276,6 +1311,8 @@ def run_tree_scenario(ctx, vt, sc, node_lockstep=True):
             continue
         if topo is not None:
             global_compare(ctx, world, spec, sidx, dest, got, topo, "tree-" + sc["cache_mode"])
+        if wtopo is not None and all(not n.digest()["pending"] for n in world.nodes if n is not world.nodes[sidx]):
+            world_compare(ctx, world, spec, sidx, dest, wtopo, dict(case))
         # replies: every recipient answers the source it was shown
         if sc.get("reply", True):
             if not do_replies(ctx, vt, world, spec, sc, case, sidx, got):
